@@ -535,7 +535,8 @@ def c17(tier, seed, only=None):
             cfg2["rerun"] = 2
             cfg2["dev"] = 4 if tier == "quick" else 5
             jobs.append(job(s, cfg2, mons))
-        if s.name in ("F2/fanin-m2-jall-SS-l1", "F2/fanin-m2-jall-SS-l1-tail", "F2/fanin-roots-all") and tier == "quick":
+        if s.name in ("F2/fanin-m2-jall-SS-l1", "F2/fanin-m2-jall-SS-l1-tail", "F2/fanin-roots-all",
+                      "F2/fanin-m2-jall-FF-l1", "F2/fanin-m2-jall-CS-l1", "F2/fanin-m2-jall-AS-l1") and tier == "quick":
             # two explicit requests on parallel branches that meet at a join
             jobs.append(job(s, dict(rerun=1, rerun_mode="failed-pairs", rerun_outcomes=ok_only, horizon=70,
                                     rerun_with_inflight=False), mons))
